@@ -74,6 +74,13 @@ C16_PAIRS = [("m_lsn", "m_usn", "mirror"), ("m_ldn", "m_udn", "mirror"), ("cdn_o
              ("r_base", "r_negpsi", "negpsi"), ("r_base", "r_revcur", "same"), ("r_base", "r_revbt", "revbt"), ("r_base", "r_twopi", "same"),
              ("rn_base", "rn_negpsi", "negpsi")]
 
+# ---- pairs for C10 (all ny doubled, nx unchanged: every face of the coarse grid must be a face of the fine grid)
+_add(_c("lsn_orth_y2", "LSN", [2, 2], [6, 8, 6], 1, "lsn", dict(orthogonal=True), fpol="quad", pressure="quad", wall="slanted"))
+_add(_c("cdn_orth_y2", "CDN", [2, 2], [6, 6, 6, 6, 6, 6], 1, "cdn", dict(orthogonal=True, **DN), fpol="quad"))
+_add(_c("lsn_nonorth_y2", "LSN", [2, 2], [6, 8, 6], 1, "lsn", dict(orthogonal=False), fpol="quad"))
+_add(_c("udn_orth_y2", "UDN", [2, 1, 2], [6, 6, 6, 6, 6, 6], 1, "udn", dict(orthogonal=True, **DN), fpol="quad"))
+C10_PAIRS = [("lsn_orth", "lsn_orth_y2"), ("cdn_orth", "cdn_orth_y2"), ("lsn_nonorth", "lsn_nonorth_y2"), ("udn_orth", "udn_orth_y2")]
+
 # ---- envelope configurations (C12): in and around the supported envelope; refusal is an accepted outcome, a hang or a bad file is not
 _add(_c("env_ny1", "LSN", [2, 2], [1, 2, 1], 1, "lsn", dict(orthogonal=True), fpol="quad"))
 _add(_c("env_g4", "LSN", [2, 2], [3, 4, 3], 4, "lsn", dict(orthogonal=True), fpol="quad"))
